@@ -124,6 +124,15 @@ impl AssignmentQualityInfo {
         self.number_instructors += 1;
     }
 
+    /// Verification hook: (number_instructors, assigned_course_choice_penalties)
+    #[cfg(feature = "verif")]
+    pub fn verif_fields(&self) -> (usize, Vec<u32>) {
+        (
+            self.number_instructors,
+            self.assigned_course_choice_penalties.clone(),
+        )
+    }
+
     pub fn get_quality(&self) -> f32 {
         (self.number_instructors * (WEIGHT_OFFSET as u32 - INSTRUCTOR_SCORE) as usize
             + self.assigned_course_choice_penalties.iter().sum::<u32>() as usize) as f32
